@@ -78,6 +78,10 @@ var prologues = map[string]string{
 	"doctype-other-meta":            `<!DOCTYPE html><html><head><meta name="viewport" content="width=device-width">`,
 	"doctype-content-without-equiv": `<!DOCTYPE html><html><head><meta name="description" content="text/html; charset=koi8-u">`,
 	"ws-doctype":                    " \n\t<!DOCTYPE html><html><head>",
+	"doctype-latin-comment":         "<!DOCTYPE html><!-- caf\xe9 cr\xe8me --><html><head>", // a stray Latin-1 byte before the declaration
+	"head-closed":                   "<!DOCTYPE html><html><head><title>t</title></head>",   // the prescan is positional: after </head>
+	"body-first":                    "<html><body><p>text</p>",
+	"body-fragment":                 `<body class="x">`,
 	// single tokens longer than any plausible tokenizer buffer: a licence comment, an inline script, a style sheet
 	"doctype-long-comment": "<!DOCTYPE html><!--" + strings.Repeat(" licence text, line after line.\n", 160) + "--><html><head>",
 	"doctype-long-script":  "<!DOCTYPE html><html><head><script>" + strings.Repeat("var a = '<meta charset=koi8-u>'; /* filler */\n", 140) + "</script>",
@@ -273,6 +277,19 @@ func c02Check(rep *Report, m *mimetype.MIME, err error, raw []byte, limit int64,
 	}
 	if err != nil && (m.String() != "application/octet-stream" || m.Parent() != nil) {
 		rep.violate(mkViolation("C02", "error-with-other-type", raw, limit, m.String()))
+	}
+	// C15 on the ancestors of a result: each is a copy of a registered format and Is that format's names
+	for p, i := m.Parent(), 0; p != nil && i < 32; p, i = p.Parent(), i+1 {
+		if node := findNode(baseType(p.String()), p.Extension()); node != nil {
+			for _, a := range mimetype.VerifAliases(node) {
+				if !p.Is(a) {
+					rep.violate(mkViolation("C15", "ancestor-not-is-alias", raw, limit, fmt.Sprintf("result %s: ancestor %s .Is(%q) is false although %q is a registered alias of that format", m, p, a, a)))
+				}
+			}
+			if !p.Is(node.String()) {
+				rep.violate(mkViolation("C15", "ancestor-not-is-own-type", raw, limit, fmt.Sprintf("result %s: ancestor %s", m, p)))
+			}
+		}
 	}
 	// C15 on detection results
 	if !m.Is(m.String()) {
